@@ -1,6 +1,6 @@
 (* ImpFactsSlice.v - value arrays and column slices (src/valuearray.c, src/columnslice.c) from the source:
    sbdf_va_row_cnt, sbdf_cs_row_cnt, sbdf_cs_create, sbdf_cs_get_property. *)
-From Sbdf Require Import ImpCall Gen.Prog Gen.Consts Base BaseFacts ImpFacts ImpFacts7 ImpFactsFrame ImpFactsCmp ImpFactsHeap ImpFactsRead ImpFactsCells.
+From Sbdf Require Import ImpCall Gen.Prog Gen.Consts Base BaseFacts ImpBase ImpFactsCells.
 From Coq Require Import ZifyBool.
 Local Open Scope Z_scope.
 Ltac Zify.zify_post_hook ::= Z.div_mod_to_equations.
